@@ -249,6 +249,26 @@ class JointModel(LogisticModel):
         dict_params["nb_events"] = self.nb_events
         return dict_params
 
+    def put_data_variables(self, state: State, dataset: Dataset) -> None:
+        """Put all the needed data variables inside the provided state (in-place).
+
+        Raises
+        ------
+        :exc:`.LeaspyInputError` :
+            If the :class:`.Dataset` does not hold one column of event data per event of the model
+            (they would silently be broadcast against the parameters of all the events).
+        """
+        if (
+            dataset.event_bool is not None
+            and dataset.event_bool.shape[-1] != self.nb_events
+        ):
+            raise LeaspyInputError(
+                f"The dataset holds {dataset.event_bool.shape[-1]} kind(s) of events "
+                f"whereas the model has {self.nb_events}: read your data with "
+                f"`factory_kws={{'nb_events': {self.nb_events}}}`."
+            )
+        super().put_data_variables(state, dataset)
+
     def _validate_compatibility_of_dataset(
         self, dataset: Optional[Dataset] = None
     ) -> None:
